@@ -122,6 +122,63 @@ def run(chk):
     chk.decide(ok, "mass-decoupling-inverse", fd.qname,
                f"MSbar mass decoupling: up*down - 1 starts at a^{info.get('lowest_power')} instead of a^4",
                where=fd.where, data={"witness": info}, how="series over F_p")
+    _applied_pair(chk, src)
     chk.floor("obligations", n_ob, 32 + 2 + 2 + 1)
     chk.note(files=["src/eko/evolution_operator/quad_ker.py", "src/eko/couplings.py", "src/eko/msbar_masses.py"], obligations=n_ob)
     chk.explanation = "Inverse relations decided as identities / valuations for symbolic non-commuting matrices and coefficients."
+
+
+def _applied_pair(chk, src):
+    """The relation APPLIED when the coupling crosses a threshold downwards must be the inverse of the one applied when it crosses the
+    same threshold upwards: `Couplings.a` is partially evaluated across every threshold in both directions with recording wrappers
+    around the coefficient functions - both directions must ask for the coefficients of the same number of light flavours (the
+    lower patch's), upwards from the upward table and downwards from its inverse; the third-order constants depend on nf."""
+    from ..pe import Closure, Obj, decide_on_values
+
+    CP = "eko.couplings"
+    cls = src.cls(f"{CP}.Couplings")
+    fa = cls.methods["a"]
+    seg_cls = src.cls("eko.matchings.Segment")
+    n = 0
+    for scheme in ("POLE", "MSBAR"):
+        for nl in (3, 4, 5):
+            asked = {}
+            for direction in ("up", "down"):
+                pe = PE(src)
+                calls = []
+                for nm in ("compute_matching_coeffs_up", "compute_matching_coeffs_down"):
+                    f = src.func(f"{CP}.{nm}")
+
+                    def wrap(p_, a, k, nm=nm, f=f):
+                        calls.append((nm, a[0], a[1]))
+                        return p_.call_closure(Closure(f, f.node, None, f.module, f.qname), list(a), dict(k))
+
+                    pe.overrides[f"{CP}.{nm}"] = wrap
+                o = Obj(cls)
+                o.attrs.update(a_ref=Arr.from_nested([dag.sym("a_ref"), dag.sym("aem_ref")]), order=(4, 0), hqm_scheme=scheme,
+                               thresholds_ratios=[dag.sym("kc"), dag.sym("kb"), dag.sym("kt")], atlas=Obj(src.cls("eko.matchings.Atlas")), cache={},
+                               method="expanded", alphaem_running=False, decoupled_running=False)
+                nf_a, nf_b = (nl, nl + 1) if direction == "up" else (nl + 1, nl)
+                s1 = pe.instantiate(seg_cls.qname, [dag.sym("mu0"), dag.sym("wall"), nf_a])
+                s2 = pe.instantiate(seg_cls.qname, [dag.sym("wall"), dag.sym("mu1"), nf_b])
+                pe.overrides[f"{CP}.Couplings.compute"] = lambda p_, a, k: Arr.from_nested([dag.sym("A"), dag.sym("AEM")])
+                pe.overrides["eko.matchings.Atlas.path"] = lambda p_, a, k, s1=s1, s2=s2: [s1, s2]
+                pe.overrides["eko.matchings.lepton_number"] = lambda p_, a, k: 3
+                pe.assume = lambda text, env, pe=pe: decide_on_values(pe, text, env) if "isclose" in text else None
+                try:
+                    pe.apply(pe.getattr(o, "a"), [dag.sym("mu1"), nf_b], {})
+                except Exception as e:
+                    chk.fail("applied-decoupling-pair-is-inverse", fa.qname, f"{scheme}, threshold {nl}|{nl + 1}, {direction}: {type(e).__name__} {e}",
+                             where=fa.where, instance=f"{scheme},{nl},{direction}")
+                    continue
+                asked[direction] = [(nm, str(sch), nf) for nm, sch, nf in calls if "matching_coeffs" in nm]
+            n += 1
+            up = [c for c in asked.get("up", []) if c[0].endswith("_up")]
+            dn = [c for c in asked.get("down", []) if c[0].endswith("_down")]
+            ok = len(up) == 1 and len(dn) == 1 and up[0][2] == nl and dn[0][2] == nl and not [c for c in asked.get("up", []) if c[0].endswith("_down")]
+            chk.decide(ok, "applied-decoupling-pair-is-inverse", fa.qname,
+                       f"{scheme}, threshold between {nl} and {nl + 1} flavours: crossing upwards asks for {asked.get('up')}, crossing downwards for "
+                       f"{asked.get('down')}; required: the upward table and its inverse for the same number of light flavours {nl} (the a_s^3 "
+                       f"constants depend on it, so otherwise down(up(a)) != a at the order implemented)", where=fa.where, instance=f"{scheme},{nl}",
+                       how="PE of Couplings.a with recording coefficient functions")
+    chk.floor("thresholds x schemes", n, 6)
